@@ -233,7 +233,8 @@ CHECKS = {
         level_text="TLC explores every history of <=6 (thorough 8) encode/decode/scribble/frame-view operations with 2 pooled "
                    "buffers and <=3 live results: no step changes a result the caller did not overwrite itself, except views; "
                    "'encoder hands out the pooled buffer' and 'decoder keeps referring to its input' are negative configurations "
-                   "(TLC produces decode, scribble input, observe change).  Real histories (encode, decode, String, split, UCS-2 "
+                   "(TLC produces decode, scribble input, observe change).  Real histories (encode, decode, String, split, the six text codecs and the GSM 7-bit function set, Build twice on one "
+                   "batch builder, the packet-building helpers, UCS-2 "
                    "helper, zero-copy frame extractor + decoder + reader refill, over all PDU types) are executed with the input "
                    "buffer overwritten after every decode and every returned output overwritten up to its capacity; after every "
                    "step every live result is compared with its snapshot and TLC checks the changed set against what the model "
@@ -275,7 +276,8 @@ CHECKS = {
                    "octet (ASCII, UCS-2, GSM-7) or by inversion/refusal (Latin-1, GB18030 with the U+E000..U+E864 carve-out); the "
                    "three UTF-8->UCS-2 helpers; DecodeCMPPCContent/DecodeSMPPCContent for every data-coding number 0..255; "
                    "every Unicode scalar value in the contexts c, ac, ca, acb through all six codecs as run-length classified "
-                   "intervals (quick: all of U+0000..U+30FF, plane and carve-out edges, every 17th elsewhere)",
+                   "intervals (quick: all of U+0000..U+30FF, plane and carve-out edges, every 17th elsewhere); every third judged call is "
+                   "made directly after a series of refused calls on the same goroutine (history independence)",
         level_note="Latin-1 (Windows-1252) and GB18030 byte values are x/text's and are only checked for inversion and refusal; in "
                    "the sweep the per-scalar equality is computed in Go and TLC judges the interval classes against the repertoire",
         rule="one event per Encode+Decode pair / helper call / content-decoder call / classified interval; distinct = distinct events",
@@ -305,7 +307,8 @@ CHECKS = {
         level_text="TLC checks that the first-occurrence search returns what the receipt carries for every subset, order, "
                    "spelling and value assignment of the keys sub/submit date/stat (thorough: + dlvrd), the lookup of the "
                    "fallback spelling without its colon being the negative configuration.  Real extractions: all 256 subsets x "
-                   "random orders x both spellings x values (also longer than the field, SMGP id = any ten octets incl. space/NUL) "
+                   "random orders x both spellings x values (also longer than the field, non-ASCII and non-UTF-8 octets, white "
+                   "space other than 0x20, SMGP id = any ten octets incl. space/NUL) "
                    "(thorough: all 8! orders); TLC re-renders the text from the pairs and compares each returned field.  The "
                    "CMPP status-report body round-trips through the C01 machinery (tag C18.statusreport)",
         level_note="values are drawn space-free and free of key tokens as the property prescribes; ExtractDeliveryReceipt1 (fixed "
@@ -321,7 +324,9 @@ CHECKS = {
                    "of the scaled model: Survives and Verifies hold when the slot is read raw; reading it as a C-string is the "
                    "negative configuration.  Real handshakes of CMPP 2.0, CMPP 3.0 and SMGP 3.0 (accounts 0..6/0..8 octets, "
                    "secrets 0..32 octets, timestamps over 0..1231235959 incl. leading zeros, status codes; 40% of the credential "
-                   "sets chosen so that the digest contains or ends in 0x00) are validated step by step; TLC recomputes both "
+                   "sets chosen so that the digest contains or ends in 0x00) are validated step by step (decoded from a reused read "
+                   "buffer that is overwritten before verification; every second client recomputes from the status octets inside its "
+                   "read buffer before it decodes the frame); TLC recomputes both "
                    "authenticators with MD5.tla (checked against the RFC test suite) from the logged credentials",
         level_note="SMGP has no library function for the server authenticator, so only its transport is checked there; the SMGP "
                    "client authenticator is reached through a verif-tagged export shim; NewConnect/NewLogin read the clock, their "
@@ -341,7 +346,8 @@ CHECKS = {
                    "number, all three bind flavours, SGIP with three distinct sequence words, several outstanding requests "
                    "answered in any order, constructors) are validated action by action: SetSequenceID visible in getter and "
                    "header, dispatcher type = Dispatch(pkg, command), GetCommand = header command, response type/command/"
-                   "sequence identifier, responses generate none, each response matches exactly one outstanding request; every "
+                   "sequence identifier, responses generate none, each response matches exactly one outstanding request, and a request "
+                   "encoded again after it has been answered still reports and dispatches as itself; every "
                    "encodable type and random command ids go through each dispatcher",
         level_note="request/response and command tables are my transcription of the protocol documents (Layouts.tla); the 2^32 "
                    "command ids are sampled (all defined ids, 0..63 with and without the response bit, random others)",
@@ -508,7 +514,7 @@ CHECKS = {
                    "(Pack/Unpack/Encode/Decode, both transformers, GSM7Packed/Unpacked, three validators) are then validated "
                    "on single-bit wirings for lengths 1..64, the MC enumeration, all branch assignments around every block "
                    "boundary for lengths 1..40, random sequences up to 2000 septets, all 1,114,112 code points (intervals) "
-                   "and all 256x256 septet pairs",
+                   "and all 256x256 septet pairs; every third judged call follows a series of refused calls (history independence)",
         level_note="the code-point sweep is classified element-wise in Go (round trip / refusal / agreement of entry points), TLC "
                    "judges the classes against the TS 23.038 repertoire; the transformers are exercised through transform.Bytes "
                    "(one Transform call), not in chunked streaming mode",
